@@ -898,6 +898,7 @@ def c17(tier, replay=None):
                        [e['ev'] for e in _signals_of(runrecs[-1]) if e['ev'] not in ('stmt', 'book')]
                        if runrecs and 'events' in runrecs[-1] else None}, limit=5)
     _trace_rejections(report, 'C17', chosen, results)
+    _c17_created_models_payload(report, tier, nontrivial)
     fired, planned = _c17_every_statement(report, tier)
     report.notes.append('all-statement fault enumeration: %d faults fired of %d planned' % (fired, planned))
     report.coverage['distinct_nontrivial'] = len(nontrivial) + fired
@@ -1272,6 +1273,55 @@ def _signal_verdicts(report, res, detail, where):
                      ('applying_migration', 'applied_migration')):
             if names.count(a) != names.count(b):
                 report.fail({'class': 'unpaired-signal-on-success', 'signal': a, 'where': where}, d)
+
+
+def _c17_created_models_payload(report, tier, nontrivial):
+    """creating_models / created_models must name exactly the models whose tables are created
+    between them - also when the same run renames a model to a new table (Evolver.tla's model
+    groups plus the rename family of histories.py)."""
+    import re
+    from .djproj import Project
+    from .histories import chain_history
+    for variant, intro, start in ((3, 2, 1), (3, 2, 0), (0, 2, 1), (3, 3, 1)):
+        h = chain_history('shop', 3, variant=variant, intro_at=intro)
+        for drv in ('api', 'cmd'):
+            p = Project(['shop'], tag='c17m')
+            try:
+                h.deploy(p, start)
+                r0 = p.run({'action': 'evolve_api'})
+                if r0['outcome'] != 'ok':
+                    report.notes.append('C17 payload family: start state not installable')
+                    continue
+                h.deploy(p, 3)
+                req = {'action': 'evolve_api'} if drv == 'api' else \
+                    {'action': 'command', 'name': 'evolve',
+                     'options': {'execute': True, 'interactive': False, 'verbosity': 0}}
+                res = p.run(req)
+            finally:
+                p.destroy()
+            report.coverage['evaluations'] += 1
+            report.coverage['traces_validated_against_impl'] += 1
+            where = {'family': 'rename+new-model', 'variant': variant, 'new_model_at': intro,
+                     'start': start, 'driver': drv, 'outcome': res['outcome'],
+                     'error': (res.get('error') or {}).get('msg')}
+            nontrivial.add(('payload', variant, intro, start, drv))
+            if res['outcome'] != 'ok':
+                report.fail({'class': 'payload-family-upgrade-failed'}, where)
+                continue
+            named, created, window = [], [], False
+            for e in res['events']:
+                if e['ev'] == 'creating_models' and e.get('app') == 'shop':
+                    window = True
+                    named += ['shop_%s' % m.lower() for m in e.get('models') or []]
+                elif e['ev'] == 'created_models' and e.get('app') == 'shop':
+                    window = False
+                elif e['ev'] == 'stmt' and window:
+                    m = re.match(r'CREATE TABLE "([^"]+)"', e['sql'])
+                    if m and m.group(1) != 'TEMP_TABLE':
+                        created.append(m.group(1))
+            if sorted(named) != sorted(created):
+                report.fail({'class': 'creating-models-payload-differs-from-created-tables'},
+                            dict(where, named=sorted(named), created=sorted(created)))
 
 
 def _c17_every_statement(report, tier):
@@ -1980,6 +2030,16 @@ def c06(tier, replay=None):
             if o1.get('error') or not o1.get('diff_empty'):
                 report.fail({'class': 'v1-round-trip-differs', 'value_type': v['t']},
                             {'value': repr(value)[:300], 'v1': o1})
+            # strings: the whole palette, plus Latin-1 and beyond-Latin-1 characters
+            variants = [value] if v['t'] != 'str' else \
+                list(codec.PALETTE) + ['pr\u00e9nom \u00ab\u00fc\u00bb', 'snow\u2603 \u4e2d', '\U0001f600']
+            for val in variants:
+                o2 = codec.v1_storage_round_trip(val, pos)
+                report.coverage['traces_validated_against_impl'] += 1
+                if o2.get('error') or not o2.get('diff_empty'):
+                    report.fail({'class': 'stored-v1-signature-reads-back-differently', 'value_type': v['t'],
+                                 'non_ascii': isinstance(val, str) and any(ord(c) > 127 for c in val)},
+                                {'value': repr(val)[:300], 'v1_stored': o2})
         report.sample({'value': repr(value)[:120], 'position': pos, 'eq': last.get('eq'),
                        'diff_empty': last.get('diff_empty'), 'same_text': last.get('same_text')})
     R.close_db()
@@ -2724,7 +2784,7 @@ INVARIANT ChainsAloneSatisfiable
     for r in recs:
         kinds = tuple(sorted(d[0] for d in r['decls']))
         live = sum(1 for x, y in r['req'] if x[0] != y[0] or x[1] != y[1])
-        strata.setdefault((kinds, bool(r['unsat']), min(live, 2)), []).append(r)
+        strata.setdefault((kinds, bool(r['unsat']), min(live, 2), bool(r.get('hollow'))), []).append(r)
     for k in strata:
         rng.shuffle(strata[k])
     limit = 70 if tier == 'quick' else 900
@@ -2738,7 +2798,8 @@ INVARIANT ChainsAloneSatisfiable
     herr = 0
     for rec, obs in zip(chosen, observations):
         report.coverage['evaluations'] += 1
-        label = {'epending': rec['epending'], 'gapplied': rec['gapplied'], 'decls': rec['decls']}
+        label = {'epending': rec['epending'], 'gapplied': rec['gapplied'], 'decls': rec['decls'],
+                 'ordering_only': rec.get('hollow')}
         if 'setup_error' in obs:
             herr += 1
             if herr <= 3:
@@ -2752,7 +2813,9 @@ INVARIANT ChainsAloneSatisfiable
                   'decl_kinds': sorted(set(d[0] for d in rec['decls']))}
             if isinstance(info, dict) and info.get('kinds'):
                 fp['kinds'] = info['kinds']
-            report.fail(fp, dict(label, order=obs.get('order'), outcome=obs.get('outcome'),
+            if isinstance(info, dict) and info.get('by'):
+                fp['by'] = info['by']
+            report.fail(fp, dict(label, order=obs.get('order'), sql_order=obs.get('sql_order'), outcome=obs.get('outcome'),
                                  error=obs.get('error_msg'), info=info, unsat=rec['unsat'],
                                  requirements=rec['req']))
     if herr > len(chosen) // 5:
